@@ -2469,6 +2469,13 @@ def check_c10(prog, rep, tier, cfg):
     # C10.d — whether a literal had to be re-indented (which depends on the indentation settings and on the source) must not change from
     # which line its logical line is wrapped (shared with C03.i)
     reflow_root_is_first_pass_root(prog, rep, "C10.d")
+    # C10.e — "at unconstrained width": the limit the user sets reaches the wrapper unchanged (no cap, no default): a capped limit makes
+    # the wrapping of a very long line depend on how wide its indentation is measured, i.e. on use_tabs / tab_width (shared with C11.a)
+    if not getattr(rep, "_c10_alias_c11", False):
+        from engine import AliasReport as _AR10
+        ar = _AR10(rep, [("C11.a", r".", "C10.e")])
+        ar._c10_alias_c11 = True
+        check_c11(prog, ar, tier, cfg)
     R = "C10.a"
     for f in ("use_tabs", "tab_width", "continuation_indents"):
         inventory(rep, R, "readers of FormattingConfig." + f, readers(prog, FC, f), [CONV_RS, DOCS] + SERDE, "indentation options are interpreted at exactly one conversion site")
